@@ -16,6 +16,18 @@ RULE = ("exhaustive: every column 0..18277 x col_abs through xl_col_to_name, eve
         "decoders, every short string over {$,A,B,Z,a,0,1,9,:} through both regex-based parsers; rows: quick = "
         "0..2000 + powers of ten +-1 + 999990..1000010 + seeded, thorough = all 0..1000000; a case is non-trivial "
         "if it is a distinct request whose outcome is ok or an IndexError (i.e. all of them are counted once)")
+MANIFEST = {
+    "text": "Full: every clause of the property is a Lean theorem about a model of xl_col_to_name / xl_rowcol_to_cell / "
+            "xl_range / xl_cell_to_rowcol / xl_col_to_offset / tokenizer col_to_index, for ALL rows and columns (no bound): "
+            "col_roundtrip, name_roundtrip (bijection N <-> non-empty A..Z words), col_strict_mono (short-lex order), "
+            "cell_roundtrip (all four $ combinations, columns <= ZZZ), cell_name_injective, range_collapses_iff, "
+            "negative_rejected. The model is tied to the code by exhaustive correspondence over all 18278 columns, all "
+            "names, all short strings for the regex scanners, and (thorough) all 1,000,001 rows.",
+    "note": "Python `re` is replaced by a hand scanner (equivalence exercised exhaustively on strings of length <= 4/5 over "
+            "a 9-symbol alphabet + every Unicode digit block); float division int((col-1)/26) is modelled as integer division "
+            "(agreement checked on all columns reachable by 3-letter names and some larger).",
+    "technique": "Lean 4 proof (induction, omega/nlinarith) + exhaustive differential correspondence",
+}
 ASSUMPTIONS = ["Python `re` is replaced by a hand scanner in the model; equivalence is exercised exhaustively on short strings",
                "`int()` on Unicode Nd digits evaluates each block of ten as 0..9 (generated and re-checked each run)"]
 
